@@ -425,6 +425,26 @@ looping through all list types: {ty:?} {base:?}"
     }
 }
 
+/// Verification-only entry points (feature `__verif`): thin public wrappers around
+/// crate-internal type relations. They add no behaviour of their own.
+#[cfg(feature = "__verif")]
+impl Type {
+    #[doc(hidden)]
+    pub fn verif_is_scalar_only_subtype(&self, maybe_subtype: &Self) -> bool {
+        self.is_scalar_only_subtype(maybe_subtype)
+    }
+
+    #[doc(hidden)]
+    pub fn verif_equal_ignoring_nullability(&self, other: &Self) -> bool {
+        self.equal_ignoring_nullability(other)
+    }
+
+    #[doc(hidden)]
+    pub fn verif_is_orderable(&self) -> bool {
+        self.is_orderable()
+    }
+}
+
 impl Display for Type {
     fn fmt(&self, f: &mut std::fmt::Formatter<'_>) -> std::fmt::Result {
         // left
